@@ -1,6 +1,7 @@
 package c06
 
 import (
+	"context"
 	"fmt"
 	"os"
 	"path/filepath"
@@ -9,6 +10,7 @@ import (
 	"ariga.io/atlas/sql/migrate"
 
 	"verif/cli"
+	"verif/fake"
 )
 
 // WOp is one step of a history of directory writers and tamperings.
@@ -250,6 +252,23 @@ func checkWriters(c WCase) (WOutcome, error) {
 			return out, fmt.Errorf("step %d (%s): directory was tampered with but Validate says %v", step, op.Kind, err)
 		}
 		if c.API {
+			// a tampered directory is refused by the executor whatever the target: ExecuteTo(v) for every version of the
+			// directory (a target in front of a checkpoint file takes another path) executes nothing
+			if _, serr := os.Stat(filepath.Join(mdir, "atlas.sum")); !valid && serr == nil {
+				fs, _ := dir.Files()
+				for _, f := range fs {
+					drv := &fake.Driver{}
+					ex, err := migrate.NewExecutor(drv, dir, fake.NewRevs())
+					if err != nil {
+						return out, fmt.Errorf("harness: %v", err)
+					}
+					err = ex.ExecuteTo(context.Background(), f.Version())
+					if len(drv.Log) > 0 || err == nil {
+						return out, fmt.Errorf("step %d (%s): the directory was tampered with, but Executor.ExecuteTo(%q) returned %v and executed %d statements", step, op.Kind, f.Version(), err, len(drv.Log))
+					}
+					out.Keys = append(out.Keys, "api/tampered-executeto")
+				}
+			}
 			if valid {
 				out.Keys = append(out.Keys, "api/valid-after-"+op.Kind)
 			} else {
